@@ -393,3 +393,76 @@ Definition reps_ok (runs : list (list mgroup)) : bool :=
    the other, [runs]: what each call sent under every observed schedule in which they ran at the same time
    (and in further sequential repetitions): no difference. *)
 Definition conc_ok (seq : list (list mgroup)) (runs : list (list (list mgroup))) : bool := all_same mgll_eqb seq runs.
+
+(* ---- long-lived executor objects: the same delivery again ------------------------------------------------ *)
+
+(* chains/evm/executor/executor.go, chains/substrate/executor/executor.go, chains/btc/executor/executor.go
+     type Executor struct { coordinator, host, comm, bridge, fetcher, exitLock, ... }     configuration only
+   app.go builds ONE executor per destination chain for the relayer's lifetime; every delivery - and, after
+   retries (a retried block keeps its message id), the SAME delivery again - is a call of Execute on that
+   object; a relayer restarted in between works with a new object.  Execute reads and writes no field of the
+   executor that another call of Execute wrote: what a call derives is a function [f] of its delivery.
+   [run_history f dels seq]: what a long-lived executor derives at every step of the history [seq] (indices
+   into the deliveries [dels]; an index that names no delivery is no step). *)
+Definition run_history {D X : Type} (f : D -> X) (dels : list D) (seq : list nat) : list (nat * X) :=
+  flat_map (fun i => match nth_error dels i with Some d => [(i, f d)] | None => [] end) seq.
+
+(* THE judge of the history cases.  [fresh]: per delivery what a relayer with a NEW executor object started;
+   [steps]: per step of the long-lived relayer's history the delivery and what it started: every session /
+   group the long-lived relayer starts at any step is one the restarted relayer starts for that delivery -
+   the same members, in the same order, under the same identifier.  (As for [faulty_ok]: a relayer that
+   starts fewer sessions derives no identifier that differs from its peers'.) *)
+Definition hist_ok {X : Type} (eqb : X -> X -> bool) (fresh : list (list X)) (steps : list (nat * list X)) : bool :=
+  forallb (fun st => match nth_error fresh (fst st) with
+                     | Some f => forallb (fun s => existsb (eqb s) f) (snd st)
+                     | None => false
+                     end) steps.
+
+(* NOT the code: an executor that counts, per object, how often a session id has been started and appends
+   -<n> from the second start on ("do not reuse the id of a session that may still be pending").  Kept to
+   state what goes wrong with it (C19_counted_sessions_refuted). *)
+Fixpoint count_sid (sid : string) (started : list string) : N :=
+  match started with
+  | [] => 0%N
+  | s :: r => ((if String.eqb s sid then 1 else 0) + count_sid sid r)%N
+  end.
+
+Definition counted_sid (started : list string) (sid : string) : string :=
+  match count_sid sid started with
+  | 0%N => sid
+  | n => (sid ++ dash ++ C14_Dec.dec n)%string
+  end.
+
+Fixpoint counted_history {D : Type} (f : D -> list (list N * list string)) (dels : list D) (started : list string)
+         (seq : list nat) : list (nat * list (list N * list string)) :=
+  match seq with
+  | [] => []
+  | i :: r =>
+      match nth_error dels i with
+      | None => counted_history f dels started r
+      | Some d =>
+          (i, map (fun s => (fst s, map (counted_sid started) (snd s))) (f d))
+            :: counted_history f dels (flat_map snd (f d) ++ started) r
+      end
+  end.
+
+(* ---- node latency: the order of what is signed -------------------------------------------------------------- *)
+
+(* chains/substrate/executor/executor.go  Execute   for _, prop := range proposals { IsProposalExecuted ... append }
+   (and proposalBatches / proposalsForExecution): one look-up after the other, the pending proposals are
+   appended in DELIVERY order - [pending_of] has no latency parameter: however long the node takes for
+   which answer, the list is the same.
+   NOT the code: look-ups asked side by side, every pending proposal appended when its answer arrives;
+   [order] = the positions of the delivery in the order in which their look-ups complete. *)
+Definition completion_pending {A : Type} (ps : list (@looked A)) (order : list nat) : option (list A) :=
+  if existsb (fun p : looked => snd p) ps then None
+  else Some (flat_map (fun i => match nth_error ps i with
+                                | Some (a, false, _) => [a]
+                                | _ => []
+                                end) order).
+
+Definition sub_exec_completion (mid : string) (ps : list (@looked N)) (order : list nat) : list (list N * list string) :=
+  match completion_pending ps order with
+  | None | Some [] => []
+  | Some l => [(l, [session_id_sub mid])]
+  end.
